@@ -295,10 +295,13 @@ func Main(d Driver) {
 	if err != nil {
 		var ie *InfraError
 		fmt.Fprintf(os.Stderr, "%s: %v\n", d.ID, err)
-		if errors.As(err, &ie) || ctx.violations == 0 {
-			// errors that are not violations never count as one
+		if ctx.violations == 0 {
+			// a failure of the machinery is never a verdict
 			code = 2
 		}
+		// violations already confirmed on the real code stand (exit 1) even if
+		// the machinery failed later in the run
+		_ = ie
 	}
 	if *replay == "" && !*selftest && code != 2 {
 		ctx.Ev.WallS = time.Since(ctx.start).Seconds()
